@@ -160,3 +160,136 @@ pub fn drill(out: &mut Out, extra: &[String]) {
         }
     }
 }
+
+// ---------------------------------------------------------------------------------------------
+// C15: clock edges between two boundaries = micro-steps + one wait per RAM access.
+
+fn access_is_ram(m: &Machine) -> bool {
+    let sg = m.signals();
+    if !(sg.busen() || sg.buswr()) {
+        return false;
+    }
+    let a = *m.registers().get(sg.selected_register_a());
+    a <= 0xEF
+}
+
+fn measure_cost(out: &mut Out, rng: &mut Rng, op: u8, b2: Option<u8>, base: u8, io_bias: bool, fixed: Option<(u8, u8)>) {
+    let mut s = Sess::new();
+    run_line(out, &mut s, "new");
+    run_line(out, &mut s, "load 0 255 -");
+    let mut prog = vec![op];
+    if op >= 0xF0 {
+        if (op & 0x0F) == 0x0B || (op & 0x0F) == 0x0F {
+            prog.push(if io_bias { 0xF0 + rng.byte() % 16 } else { rng.byte() % 0xE0 });
+        }
+        let b = b2.unwrap_or(0x10);
+        prog.push(b);
+        if (b & 0x0F) == 0x0F && b != 0x13 {
+            prog.push(if io_bias { 0xF0 + rng.byte() % 16 } else { rng.byte() % 0xE0 });
+        }
+    } else if op == 0x28 || (0x20..=0x27).contains(&op) {
+        prog.push(rng.byte() % 0x40);
+    } else if (0x50..=0x5F).contains(&op) && ((op & 0x0F) == 0x0B || (op & 0x0F) == 0x0F) {
+        prog.push(rng.byte() % 0xE0);
+    }
+    prog.push(0x02);
+    prog.push(0x02);
+    for (i, b) in prog.iter().enumerate() {
+        let a = base as usize + i;
+        if a <= 0xEF {
+            run_line(out, &mut s, &format!("busw {} {}", a, b));
+        } else if a == 0xF0 {
+            run_line(out, &mut s, &format!("di1 {}", b));
+        } else if a >= 0xFC && a <= 0xFF {
+            run_line(out, &mut s, &format!("in {} {}", a - 0xFC, b));
+        }
+    }
+    let addr = |rng: &mut Rng| if io_bias && rng.chance(1, 2) { 0xF0 + rng.byte() % 16 } else { rng.byte() % 0xE0 };
+    let (r0, r1) = match fixed {
+        Some(p) => p,
+        None => (addr(rng), addr(rng)),
+    };
+    let sp = if io_bias && rng.chance(1, 3) { 0xF0 + rng.byte() % 3 } else { 0x60 + rng.byte() % 0x80 };
+    let regs = [r0, r1, addr(rng), base, rng.byte() & 0x07, sp, rng.byte(), rng.byte()];
+    run_line(out, &mut s, &format!("force 0 2 {} - 0 0 0 0 0 0 0 R 0", hexs(&regs)));
+    let mut guard = 0;
+    while !s.m.is_instruction_done() && guard < 50 {
+        s.m.raw_mut().trigger_clock_edge();
+        guard += 1;
+    }
+    // boundary B0 reached (fetch word executed). Measure to the next boundary.
+    let keep_running = |m: &mut Machine| {
+        if m.state() != State::Running {
+            let st = m.verif_state();
+            m.raw_mut().verif_force(&st, State::Running);
+        }
+    };
+    keep_running(&mut s.m);
+    let mut ram = access_is_ram(&s.m) as u32; // the fetch that produced B0
+    let mut steps = 0u32;
+    let mut edges = 0u32;
+    let mut last_ram = false;
+    let mut done = false;
+    while edges < 5000 {
+        let waiting = s.m.verif_state().pending_wait_for_memory;
+        s.m.raw_mut().trigger_clock_edge();
+        keep_running(&mut s.m);
+        edges += 1;
+        if waiting {
+            continue;
+        }
+        steps += 1;
+        last_ram = access_is_ram(&s.m);
+        if s.m.is_instruction_done() {
+            done = true;
+            break;
+        }
+        ram += last_ram as u32;
+    }
+    let _ = last_ram;
+    if !done {
+        return; // hang (undefined second byte): no cost to speak of
+    }
+    let b2s = b2.map(|b| b.to_string()).unwrap_or("-".into());
+    out.emit(
+        &format!("spec.cost {} {} {} {}", op, b2s, steps, ram),
+        &format!("edges={} steps={}", edges, steps),
+    );
+    out.distinct_case(&format!("{} {} {:?} {}", op, b2s, regs, base));
+    out.count(if io_bias { "io-biased" } else { "ram" });
+}
+
+pub fn run_c15(out: &mut Out, seed: u64, thorough: bool) {
+    let mut rng = Rng::new(seed);
+    let reps = if thorough { 12 } else { 2 };
+    for op in 0..=255u8 {
+        if !defined_first(op) {
+            continue;
+        }
+        for rep in 0..reps {
+            let io = rep % 2 == 1;
+            // code placement: low RAM, and straddling the RAM / I-O boundary at 0xEF/0xF0
+            let base = match rep % 4 { 0 | 1 => rng.byte() % 0x40, 2 => 0xEE, _ => 0xEF };
+            if op >= 0xF0 {
+                for b in 0..=255u8 {
+                    if defined_second(b) && (thorough || (b as u32 + rep as u32 + op as u32) % 3 == 0) {
+                        measure_cost(out, &mut rng, op, Some(b), base, io, None);
+                    }
+                }
+            } else {
+                measure_cost(out, &mut rng, op, None, base, io, None);
+            }
+        }
+    }
+    // MUL / DIV: data dependent; all 65 536 operand pairs in the thorough tier
+    for op in [0xB4u8, 0xC4u8].iter() {
+        let stride = if thorough { 1 } else { 37 };
+        let mut i = (seed % 37) as u32;
+        while i < 65536 {
+            let (a, b) = ((i >> 8) as u8, (i & 0xFF) as u8);
+            measure_cost(out, &mut rng, *op, None, 4, false, Some((a, b)));
+            i += stride;
+        }
+    }
+    out.sample("spec.cost 180 - <steps> <ram accesses>  (MUL R0,R1)".into());
+}
